@@ -70,13 +70,43 @@ theorem old_start_of_executing_id_corrupts_routing :
 
 /-! ### The fork table -/
 
-/-- **The fork table is exactly the set of subscriptions of the executing tasks** — after every history: an entry
-`(id ↦ e)` sits under key `k` iff `id` is executing with input edge `e` and `k` is one of its dbrp × measurement keys. In particular
-stop/delete leave no stale key, and start misses none (every from-node's measurement is covered). -/
+/-- **The fork table is exactly the set of subscriptions of the live tasks** — after every history: an entry `(id ↦ e)` sits under
+key `k` iff `id` is live (in `tm.tasks` with input edge `e`, still holding fork keys) and `k` is one of its dbrp × measurement keys.
+In particular stop/delete/drain leave no stale key, and start misses none (every from-node's measurement is covered). -/
 theorem fork_table_exact (drp : String) (ops : List Op) (k : Key) (id : String) (e : Edge) :
-    (id, e) ∈ (run drp ops).forks k ↔ ((run drp ops).tasks id = some e ∧ k ∈ e.task.keys) := by
+    (id, e) ∈ (run drp ops).forks k ↔
+      ((run drp ops).tasks id = some e ∧ (run drp ops).isLive id = true ∧ k ∈ e.task.keys) := by
   have hi : Inv (run drp ops) := run_inv drp ops
-  exact ⟨fun h => hi.entry k id e h, fun h => hi.reg id e h.1 k h.2⟩
+  constructor
+  · intro h
+    have h1 := hi.entry k id e h
+    have h2 := hi.listed k id e h
+    refine ⟨h1.1, ?_, h1.2⟩
+    have hne : (run drp ops).forkKeysOf id ≠ [] := fun h0 => by rw [h0] at h2; cases h2
+    simp [TM.isLive, h1.1, hne]
+  · rintro ⟨h1, h2, h3⟩
+    have hne : (run drp ops).forkKeysOf id ≠ [] := by
+      intro h0; simp [TM.isLive, h0] at h2
+    exact hi.reg id e h1 hne k h3
+
+/-- **`Drain` ends every execution**: afterwards the fork table is empty and no id is live — so (fourth fix) every id may be started
+again, although `tm.tasks` still holds the ended executions. -/
+theorem drain_ends_every_execution (drp : String) (ops : List Op) (k : Key) (id : String) :
+    (run drp (ops ++ [.drain])).forks k = [] ∧ (run drp (ops ++ [.drain])).isLive id = false := by
+  have hrun : run drp (ops ++ [.drain]) = drain (run drp ops) := by
+    simp [run, List.foldl_append, step, stepWith]
+  have hi := run_inv drp ops
+  rw [hrun]
+  constructor
+  · cases hf : (drain (run drp ops)).forks k with
+    | nil => rfl
+    | cons x rest =>
+      exfalso
+      have hm : (x.1, x.2) ∈ (drain (run drp ops)).forks k := by rw [hf]; exact List.mem_cons_self ..
+      have := hi.drain.listed k x.1 x.2 hm
+      rw [drain_keysOf hi] at this
+      cases this
+  · simp [TM.isLive, drain_keysOf hi]
 
 /-- … and no inner map holds an id twice (it is a map). -/
 theorem fork_table_functional (drp : String) (ops : List Op) (k : Key) :
@@ -240,6 +270,17 @@ example : (writtenIds sample).Nodup ∧
     (run "autogen" sample).delivered "u" 0 = [1] := by decide
 
 example : (sample.filter (relevant "t")).length < sample.length := by decide
+
+/-- Restart after the execution has ended vs. start of a live id (third + fourth fix): `t` runs, a second start is refused (the task
+keeps from-node 'cpu'); after `drain` the id is still in `tm.tasks` but not live, the start under the new definition is accepted and
+receives; the first execution got nothing after the drain. -/
+example :
+    let ops : List Op :=
+      [.start ⟨"t", [("d", "r")], [{ name := "cpu" }]⟩, .start ⟨"t", [("d", "r")], [{ name := "mem" }]⟩,
+       .write "d" "r" [⟨1, "cpu", []⟩, ⟨2, "mem", []⟩], .drain, .write "d" "r" [⟨3, "cpu", []⟩],
+       .start ⟨"t", [("d", "r")], [{ name := "mem" }]⟩, .write "d" "r" [⟨4, "cpu", []⟩, ⟨5, "mem", []⟩]]
+    (run "" ops).delivered "t" 0 = [1, 5] ∧ specDelivered "" "t" 0 ops = [1, 5] ∧
+    ((run "" (ops.take 4)).tasks "t").isSome = true ∧ (run "" (ops.take 4)).isLive "t" = false := by decide
 
 /-- `never_sends_on_closed_edge` is not vacuous: edges do get closed. -/
 example : (run "autogen" sample).closed.length = 3 ∧ (run "autogen" sample).sentOnClosed = false := by decide
